@@ -184,7 +184,9 @@ func (w *world) handle(ctx *fasthttp.RequestCtx) {
 					sn.MForm = append(sn.MForm, [2]string{k, v})
 				}
 			}
-			sort.Slice(sn.MForm, func(i, j int) bool { return sn.MForm[i][0]+"\x00"+sn.MForm[i][1] < sn.MForm[j][0]+"\x00"+sn.MForm[j][1] })
+			sort.Slice(sn.MForm, func(i, j int) bool {
+				return sn.MForm[i][0]+"\x00"+sn.MForm[i][1] < sn.MForm[j][0]+"\x00"+sn.MForm[j][1]
+			})
 			for _, fs := range f.File {
 				sn.MFiles += len(fs)
 			}
@@ -463,7 +465,9 @@ func eqPairs(a, b [][2]string) bool {
 func checkAgainstReference(sn *snap, m *msgSpec) []string {
 	var d []string
 	ref := m.ref
-	diff := func(what string, got, want any) { d = append(d, fmt.Sprintf("%s: handler saw %q, message has %q", what, got, want)) }
+	diff := func(what string, got, want any) {
+		d = append(d, fmt.Sprintf("%s: handler saw %q, message has %q", what, got, want))
+	}
 	if sn.Method != ref.Method {
 		diff("method", sn.Method, ref.Method)
 	}
